@@ -19,7 +19,8 @@ Transcription conventions
  * the model follows the repaired code (fix commits in findings/C13.json): the division by the
    first scale factor is guarded like all the others; the low-memory class flushes its buffer of
    log-scales when it is full *before* writing the next one; `NumTools::logsum` of equal arguments;
-   the derivative cache names are forgotten by `fireParameterChanged` / `setBreakPoints`; the second
+   the derivative cache names are forgotten by `fireParameterChanged` / `setBreakPoints`; `setBreakPoints`
+   refuses a vector that is not strictly increasing within `1 … nbSites-1`; the second
    derivative resets `d2Scales_` / `d2LogLik_`; the auto-correlation matrix holds its stationary vector.
 
 Contents: break-point control flow · forward recursions of the three classes · backward recursions
@@ -29,6 +30,12 @@ specification (`pathSum`, `pathMarginal`, `fwdU`).
 -/
 namespace Bpp.Hmm
 open Bpp Bpp.Scalar
+
+/-- `std::isinf`: only the `Float` reading of the model has infinities -/
+class HasIsInf (α : Type) where
+  isInf : α → Bool
+instance : HasIsInf Float := ⟨Float.isInf⟩
+instance : HasIsInf Rat := ⟨fun _ => false⟩
 
 variable {α : Type} [Scalar α]
 
@@ -78,6 +85,16 @@ def bwdFlags : Nat → List Nat → List Bool
   | i + 1, rbps =>
     if nextBrkR rbps < i + 1 then false :: bwdFlags i rbps
     else true :: bwdFlags i rbps.tail
+
+/-- `AbstractHmmLikelihood::checkBreakPoints_` (HmmLikelihood.cpp:57-66): every entry is a position in
+`1 … nbSites-1` and larger than the one before; `false` = it throws -/
+def breaksOkFrom (nbSites : Nat) : Option Nat → List Nat → Bool
+  | _, [] => true
+  | prev, b :: bs =>
+    !(b == 0 || decide (nbSites ≤ b)) && (match prev with | some q => decide (q < b) | none => true)
+      && breaksOkFrom nbSites (some b) bs
+
+def breaksOk (nbSites : Nat) (bps : List Nat) : Bool := breaksOkFrom nbSites none bps
 
 /-- the sites 1 … T-1 tagged with the forward reset flags -/
 def mkSites (es : List (Emis α)) (bps : List Nat) : List (Site α) :=
@@ -351,14 +368,194 @@ def zip8 {β γ δ ε ζ η θ ι : Type} : List β → List γ → List δ → 
     (a, b, c, d, e, f, g, h) :: zip8 as bs cs ds es fs gs hs
   | _, _, _, _, _, _, _, _ => []
 
-/-- `d2LogLik_`; `fw`, `dfw` = the cached results of `computeForward_` and `computeDForward_` -/
+structure RescD2Fwd (α : Type) where
+  d2Scales : List α
+  d2LogLik : α
+
+/-- `d2Scales_`, `d2LogLik_`; `fw`, `dfw` = the cached results of `computeForward_` and `computeDForward_` -/
 def rescD2Forward (p : Params α) (e0 : Emis α) (es : List (Emis α)) (de0 : Emis α) (des : List (Emis α))
-    (d2e0 : Emis α) (d2es : List (Emis α)) (bps : List Nat) (fw : RescFwd α) (dfw : RescDFwd α) : α :=
+    (d2e0 : Emis α) (d2es : List (Emis α)) (bps : List Nat) (fw : RescFwd α) (dfw : RescDFwd α) : RescD2Fwd α :=
   let t0 := rescD2Tmp p true e0 de0 d2e0 [] [] []
   let r0 := rescD2Site t0.1 t0.2.1 t0.2.2 (fw.scales.headD zero) (dfw.dScales.headD zero)
   let flags := fwdFlags (es.length + 1) es.length 1 bps
   let r := r0 :: rescD2Loop p (zip8 flags es des d2es fw.lik dfw.dLik fw.scales.tail dfw.dScales.tail) r0.1
-  sumL (sortDesc (r.map (·.2.2)))
+  { d2Scales := r.map (·.2.1), d2LogLik := sumL (sortDesc (r.map (·.2.2))) }
+
+/-! ## LogsumHmmLikelihood::computeDForward_ / computeD2Forward_ (LogsumHmmLikelihood.cpp:378-598), as repaired
+(`num -= VectorTools::max(num)`; the second-order recursion has the `d2e/e - (de/e)^2` term of the
+current position and leaves the first-order partials alone).
+
+`VectorTools::max` (VectorTools.h:1127), `operator-=(vector, scalar)` (:294), `sumExp` (2 overloads,
+:726-769) are transcribed here over `Scalar` (C07's model `LogSpace` reads the same text over another
+interface).  An exception (`DimensionException`, `BadNumberException` for an infinite maximum) is
+`none`.  `VectorTools::max` of an empty vector throws: no hidden state is outside the model's domain. -/
+
+section LogDeriv
+variable [HasIsInf α]
+
+/-- `maxi = v[0]; for i ≥ 1: if (v[i] > maxi) maxi = v[i]` -/
+def vmaxL : List α → α
+  | [] => zero
+  | x :: xs => xs.foldl (fun m y => if gtb y m then y else m) x
+
+/-- `num[kp] = logLikelihood_[iip + kp]; num -= VectorTools::max(num)` -/
+def shiftMax (l : List α) : List α := let M := vmaxL l; l.map (fun x => x - M)
+
+/-- `VectorTools::sumExp(v1)`: Σ exp(v1_i) -/
+def sumExp1 (v1 : List α) : α :=
+  match v1 with
+  | [x] => exp x
+  | _ =>
+    let M := vmaxL v1
+    if HasIsInf.isInf M then (if ltb M zero then zero else M)
+    else
+      match v1 with
+      | [] => zero
+      | x0 :: rest => (rest.foldl (fun y z => y + exp (z - M)) (exp (x0 - M))) * exp M
+
+/-- `VectorTools::sumExp(v1, v2)`: Σ v2_i·exp(v1_i) -/
+def sumExpW (v1 v2 : List α) : Option α :=
+  if v1.length ≠ v2.length then none
+  else
+    match v1, v2 with
+    | [x], [w] => some (w * exp x)
+    | x0 :: r1, w0 :: r2 =>
+      let M := vmaxL v1
+      if HasIsInf.isInf M then none
+      else some (((List.zip r1 r2).foldl (fun x (q : α × α) => x + q.2 * exp (q.1 - M)) (w0 * exp (x0 - M))) * exp M)
+    | _, _ => none
+
+def addV (a b : List α) : List α := List.zipWith (fun x y => x + y) a b
+
+/-- `(*dEmissions)[j] / (*emissions)[j]`, j = 0..n-1 -/
+def dRatio (p : Params α) (e de : Emis α) : List α := vec p.n (fun j => de j / e j)
+
+/-- `sumExp(num, dLogLikelihood_[i-1]) / sumExp(num)`: derivative of the log-likelihood of a finished segment -/
+def logDPartial (num prevD : List α) : Option α :=
+  (sumExpW num prevD).map (fun x => x / sumExp1 num)
+
+/-- `dLogLikelihood_[i]` from `num` (shifted `logLikelihood_[i-1]`) and `dLogLikelihood_[i-1]` (:427-445) -/
+def logDRow (p : Params α) (brk : Bool) (e de : Emis α) (num prevD : List α) : Option (List α) :=
+  if brk then some (dRatio p e de)
+  else (List.range p.n).mapM (fun j =>
+    match sumExpW num (mulV prevD (col p j)), sumExpW num (col p j) with
+    | some a, some b => some (de j / e j + a / b)
+    | _, _ => none)
+
+/-- per site ≥ 1: (flag, e, de, logLikelihood_[i-1]); `prevLast` = `logLikelihood_[T-1]` for the termination.
+Result: (dLogLikelihood_ rows from here on, partialDLogLikelihoods_ from here on) -/
+def logDLoop (p : Params α) (lastLL : List α) : List (Bool × Emis α × Emis α × List α) → List α →
+    Option (List (List α) × List α)
+  | [], prevD => (logDPartial (shiftMax lastLL) prevD).map (fun x => ([], [x]))
+  | (b, e, de, prevLL) :: rest, prevD =>
+    let num := shiftMax prevLL
+    match logDRow p b e de num prevD with
+    | none => none
+    | some cur =>
+      match (if b then (logDPartial num prevD).map some else some none), logDLoop p lastLL rest cur with
+      | some part, some r => some (cur :: r.1, match part with | some x => x :: r.2 | none => r.2)
+      | _, _ => none
+
+def zip4 {β γ δ ε : Type} : List β → List γ → List δ → List ε → List (β × γ × δ × ε)
+  | a :: as, b :: bs, c :: cs, d :: ds => (a, b, c, d) :: zip4 as bs cs ds
+  | _, _, _, _ => []
+
+structure LogDFwd (α : Type) where
+  dLog : List (List α)
+  partials : List α
+  dLogLik : α
+
+/-- `computeDForward_`; `fw` = the cached result of `computeForward_` (logLikelihood_); `none` = it throws -/
+def logDForward (p : Params α) (e0 : Emis α) (es : List (Emis α)) (de0 : Emis α) (des : List (Emis α))
+    (bps : List Nat) (fw : LogFwd α) : Option (LogDFwd α) :=
+  let d0 := dRatio p e0 de0
+  let flags := fwdFlags (es.length + 1) es.length 1 bps
+  (logDLoop p (fw.logLik.getLastD []) (zip4 flags es des fw.logLik) d0).map (fun r =>
+    { dLog := d0 :: r.1, partials := r.2, dLogLik := sumL (sortDesc r.2) })
+
+/-- `d2e/e - pow(de/e, 2)`, j = 0..n-1 -/
+def d2Ratio (p : Params α) (e de d2e : Emis α) : List α := vec p.n (fun j => d2e j / e j - (de j / e j) * (de j / e j))
+
+/-- `sumExp(num, num2) / den - pow(sumExp(num, dLog[i-1]) / den, 2)` with `num2 = dLog[i-1]² + d2Log[i-1]`, `den = sumExp(num)` -/
+def logD2Partial (num prevD prevD2 : List α) : Option α :=
+  let den := sumExp1 num
+  match sumExpW num (addV (mulV prevD prevD) prevD2), sumExpW num prevD with
+  | some a, some b => some (a / den - (b / den) * (b / den))
+  | _, _ => none
+
+/-- `d2LogLikelihood_[i]` (:536-563) -/
+def logD2Row (p : Params α) (brk : Bool) (e de d2e : Emis α) (num prevD prevD2 : List α) : Option (List α) :=
+  if brk then some (d2Ratio p e de d2e)
+  else (List.range p.n).mapM (fun j =>
+    match sumExpW num (col p j), sumExpW num (mulV (addV (mulV prevD prevD) prevD2) (col p j)),
+          sumExpW num (mulV prevD (col p j)) with
+    | some den, some a, some b =>
+      some (d2e j / e j - (de j / e j) * (de j / e j) + a / den - (b / den) * (b / den))
+    | _, _, _ => none)
+
+/-- per site ≥ 1: (flag, e, de, d2e, logLikelihood_[i-1], dLogLikelihood_[i-1]); carries `d2LogLikelihood_[i-1]`;
+`lastD` = `dLogLikelihood_[T-1]`.  Result: (d2LogLikelihood_ rows from here on, partialD2LogLikelihoods_) -/
+def logD2Loop (p : Params α) (lastLL lastD : List α) :
+    List (Bool × Emis α × Emis α × Emis α × List α × List α) → List α → Option (List (List α) × List α)
+  | [], prevD2 => (logD2Partial (shiftMax lastLL) lastD prevD2).map (fun x => ([], [x]))
+  | (b, e, de, d2e, prevLL, prevD) :: rest, prevD2 =>
+    let num := shiftMax prevLL
+    match logD2Row p b e de d2e num prevD prevD2 with
+    | none => none
+    | some cur =>
+      match (if b then (logD2Partial num prevD prevD2).map some else some none), logD2Loop p lastLL lastD rest cur with
+      | some part, some r => some (cur :: r.1, match part with | some x => x :: r.2 | none => r.2)
+      | _, _ => none
+
+def zip6 {β γ δ ε ζ η : Type} : List β → List γ → List δ → List ε → List ζ → List η → List (β × γ × δ × ε × ζ × η)
+  | a :: as, b :: bs, c :: cs, d :: ds, e :: es, f :: fs => (a, b, c, d, e, f) :: zip6 as bs cs ds es fs
+  | _, _, _, _, _, _ => []
+
+structure LogD2Fwd (α : Type) where
+  d2Log : List (List α)
+  partials : List α
+  d2LogLik : α
+
+/-- `computeD2Forward_` after its call of `getFirstOrderDerivative(d2Variable_)`; `dfw` = the cached
+first-order arrays (of the same variable) -/
+def logD2Forward (p : Params α) (e0 : Emis α) (es : List (Emis α)) (de0 : Emis α) (des : List (Emis α))
+    (d2e0 : Emis α) (d2es : List (Emis α)) (bps : List Nat) (fw : LogFwd α) (dfw : LogDFwd α) : Option (LogD2Fwd α) :=
+  let flags := fwdFlags (es.length + 1) es.length 1 bps
+  let r0 := d2Ratio p e0 de0 d2e0
+  (logD2Loop p (fw.logLik.getLastD []) (dfw.dLog.getLastD []) (zip6 flags es des d2es fw.logLik dfw.dLog) r0).map
+    (fun r => { d2Log := r0 :: r.1, partials := r.2, d2LogLik := sumL (sortDesc r.2) })
+
+/-! ### get(D|D2)LogLikelihoodForASite of the log-sum class (LogsumHmmLikelihood.cpp:476-497, 618-641), as repaired:
+the term of a site is the derivative of the log-likelihood of its segment up to the site minus the one up
+to the previous site (the rescaled class answers `dScales_[site] / scales_[site]`, the same quantity) -/
+
+/-- `firstOfSegment`: `site == 0 || find(breakPoints_, site) != end` -/
+def firstOfSegment (bps : List Nat) (site : Nat) : Bool := site == 0 || bps.contains site
+
+/-- `outer` = the array is not indexed out of range; `inner` = no exception -/
+def logDSiteOf (fw : LogFwd α) (dLog : List (List α)) (bps : List Nat) (site : Nat) : Option (Option α) :=
+  let pre (i : Nat) : Option (Option α) :=
+    match fw.logLik[i]?, dLog[i]? with
+    | some ll, some d => some (logDPartial (shiftMax ll) d)
+    | _, _ => none
+  if firstOfSegment bps site then pre site
+  else match pre site, pre (site - 1) with
+    | some (some a), some (some b) => some (some (a - b))
+    | some _, some _ => some none
+    | _, _ => none
+
+def logD2SiteOf (fw : LogFwd α) (dLog d2Log : List (List α)) (bps : List Nat) (site : Nat) : Option (Option α) :=
+  let pre (i : Nat) : Option (Option α) :=
+    match fw.logLik[i]?, dLog[i]?, d2Log[i]? with
+    | some ll, some d, some d2 => some (logD2Partial (shiftMax ll) d d2)
+    | _, _, _ => none
+  if firstOfSegment bps site then pre site
+  else match pre site, pre (site - 1) with
+    | some (some a), some (some b) => some (some (a - b))
+    | some _, some _ => some none
+    | _, _ => none
+
+end LogDeriv
 
 /-! ## The cache state machine of the likelihood objects
 
@@ -375,9 +572,15 @@ structure Tables (α : Type) where
   /-- `getD2EmissionProbabilities` after `computeD2EmissionProbabilities(variable)` -/
   d2E : String → Emis α × List (Emis α)
 
+/-- `nbSites_` -/
+def Tables.T (t : Tables α) : Nat := t.es.length + 1
+
 /-- answers; `exc` = an exception reaches the caller -/
 inductive Ans (α : Type) where
   | exc
+  /-- undefined behaviour in the C++: a `std::vector` is indexed out of range / an iterator is
+  dereferenced past the end -/
+  | ub
   | val (x : α)
   | mat (m : List (List α))
 deriving DecidableEq
@@ -387,11 +590,49 @@ inductive Op (α : Type) where
   | setTables (t : Tables α)
   | setBreaks (bps : List Nat)
   | logLik
+  /-- `getHiddenStatesPosteriorProbabilities(probs, false)` on an empty vector -/
   | posterior
+  /-- `getHiddenStatesPosteriorProbabilities(probs, append)` where `probs` holds the rows `buf` on entry;
+  the answer is `probs` on return -/
+  | posteriorInto (buf : List (List α)) (append : Bool)
+  /-- `getHiddenStatesPosteriorProbabilitiesForASite(site)` -/
+  | posteriorSite (site : Nat)
+  /-- `getLikelihoodForASite(site)` -/
+  | siteLik (site : Nat)
+  /-- `getLikelihoodForEachSite()` -/
+  | siteLiks
   /-- `getFirstOrderDerivative(var)` -/
   | d1 (var : String)
   /-- `getSecondOrderDerivative(var)` -/
   | d2 (var : String)
+  /-- `getDLogLikelihoodForASite(site)` -/
+  | dSite (site : Nat)
+  /-- `getD2LogLikelihoodForASite(site)` -/
+  | d2Site (site : Nat)
+
+/-- the variable of the cached first-order arrays after an operation (`dVariable_`) -/
+def nextDv (dv d2v : String) : Op α → String
+  | .setTables _ | .setBreaks _ => ""
+  | .d1 var => var
+  | .d2 var => if var != d2v then var else dv
+  | _ => dv
+
+/-- the variable of the cached second-order arrays after an operation (`d2Variable_`) -/
+def nextD2v (d2v : String) : Op α → String
+  | .setTables _ | .setBreaks _ => ""
+  | .d2 var => var
+  | _ => d2v
+
+/-- the per-site derivative accessors are asked only while the arrays they read belong to the current
+parameter values (a first-order derivative was asked since the last update; for the second-order
+accessor also a second-order one) -/
+def derivNamesOk (dv d2v : String) : List (Op α) → Bool
+  | [] => true
+  | op :: ops =>
+    (match op with
+     | .dSite _ => dv != ""
+     | .d2Site _ => dv != "" && d2v != ""
+     | _ => true) && derivNamesOk (nextDv dv d2v op) (nextD2v d2v op) ops
 
 /-! ### RescaledHmmLikelihood -/
 
@@ -404,19 +645,35 @@ structure RescObj (α : Type) where
   dVar : String
   dfw : RescDFwd α
   d2Var : String
-  d2LogLik : α
+  d2fw : RescD2Fwd α
 
 /-- `computeForward_`: `none` = throws (negative / NaN transition probability) before writing anything -/
 def rescCompute (t : Tables α) (bps : List Nat) : Option (RescFwd α) :=
   if transOk t.p then some (rescForward t.p t.e0 (mkSites t.es bps)) else none
 
 def emptyD : RescDFwd α := { dLik := [], dScales := [], dLogLik := zero }
+def emptyD2 : RescD2Fwd α := { d2Scales := [], d2LogLik := zero }
 
 /-- the constructor; `none` = it throws -/
 def RescObj.build (t : Tables α) : Option (RescObj α) :=
   (rescCompute t []).map (fun fw =>
     { tab := t, bps := [], fw := fw, back := [], backUpToDate := false, dVar := "", dfw := emptyD,
-      d2Var := "", d2LogLik := zero })
+      d2Var := "", d2fw := emptyD2 })
+
+/-- `(*emissionProbabilities_)(site)`; `none` = no such position (the C++ indexes out of range) -/
+def Tables.emisAt (t : Tables α) (site : Nat) : Option (Emis α) :=
+  match site with
+  | 0 => some t.e0
+  | s + 1 => t.es[s]?
+
+/-- `ret[i] = Σ_j vv[i][j] * e(i, j)` -/
+def siteLiksOf (t : Tables α) (post : List (List α)) : List α :=
+  List.zipWith (fun r e => siteLik t.p r e) post (t.e0 :: t.es)
+
+/-- `if (!backLikelihoodUpToDate_) computeBackward_();` -/
+def RescObj.refreshBack (o : RescObj α) : RescObj α :=
+  if o.backUpToDate then o
+  else { o with back := rescBackward o.tab.p o.tab.es o.fw.scales o.bps, backUpToDate := true }
 
 def RescObj.step (o : RescObj α) : Op α → RescObj α × Ans α
   | .setTables t =>
@@ -426,17 +683,39 @@ def RescObj.step (o : RescObj α) : Op α → RescObj α × Ans α
     | none => (o1, .exc)
     | some fw => ({ o1 with fw := fw, backUpToDate := false }, .val fw.logLik)
   | .setBreaks bps =>
-    -- setBreakPoints (RescaledHmmLikelihood.h:176)
+    -- setBreakPoints (RescaledHmmLikelihood.h:176): an invalid vector is refused before anything is changed
+    if !(breaksOk o.tab.T bps) then (o, .exc) else
     let o1 := { o with bps := bps, dVar := "", d2Var := "" }
     match rescCompute o.tab bps with
     | none => (o1, .exc)
     | some fw => ({ o1 with fw := fw, backUpToDate := false }, .val fw.logLik)
   | .logLik => (o, .val o.fw.logLik)
   | .posterior =>
-    -- getHiddenStatesPosteriorProbabilities (RescaledHmmLikelihood.cpp:346)
+    -- getHiddenStatesPosteriorProbabilities (RescaledHmmLikelihood.cpp:352)
     let o1 := if o.backUpToDate then o
       else { o with back := rescBackward o.tab.p o.tab.es o.fw.scales o.bps, backUpToDate := true }
     (o1, .mat (posteriorOf o1.fw.lik o1.back))
+  | .posteriorInto buf append =>
+    -- :354-359 `offset = append ? probs.size() : 0; probs.resize(offset + nbSites_)`, every row
+    -- `offset + i` is resized to `nbStates_` and then written completely (:364-371): without `append`
+    -- nothing of `buf` survives, with `append` all of it does
+    let o1 := o.refreshBack
+    (o1, .mat ((if append then buf else []) ++ posteriorOf o1.fw.lik o1.back))
+  | .posteriorSite site =>
+    -- getHiddenStatesPosteriorProbabilitiesForASite (:336-349): `likelihood_[site * n + j] * backLikelihood_[site][j]`,
+    -- i.e. row `site` of the product above; no range check
+    let o1 := o.refreshBack
+    (o1, match (posteriorOf o1.fw.lik o1.back)[site]? with | some r => .mat [r] | none => .ub)
+  | .siteLik site =>
+    -- getLikelihoodForASite (:304-314)
+    let o1 := o.refreshBack
+    (o1, match (posteriorOf o1.fw.lik o1.back)[site]?, o.tab.emisAt site with
+      | some r, some e => .val (siteLik o.tab.p r e)
+      | _, _ => .ub)
+  | .siteLiks =>
+    -- getLikelihoodForEachSite (:316-332)
+    let o1 := o.refreshBack
+    (o1, .mat [siteLiksOf o.tab (posteriorOf o1.fw.lik o1.back)])
   | .d1 var =>
     -- AbstractHmmLikelihood::getFirstOrderDerivative (HmmLikelihood.cpp:33)
     if var != o.dVar then
@@ -455,13 +734,35 @@ def RescObj.step (o : RescObj α) : Op α → RescObj α × Ans α
       let de := o.tab.dE var
       let d2e := o.tab.d2E var
       let d2 := rescD2Forward o.tab.p o.tab.e0 o.tab.es de.1 de.2 d2e.1 d2e.2 o.bps o1.fw o1.dfw
-      ({ o1 with d2Var := var, d2LogLik := d2 }, .val (-d2))
-    else (o, .val (-o.d2LogLik))
+      ({ o1 with d2Var := var, d2fw := d2 }, .val (-d2.d2LogLik))
+    else (o, .val (-o.d2fw.d2LogLik))
+  | .dSite site =>
+    -- getDLogLikelihoodForASite (RescaledHmmLikelihood.cpp:484-487): `dScales_[site] / scales_[site]`, whatever
+    -- `dScales_` holds (it is empty before the first derivative, and not recomputed by an update)
+    (o, match o.dfw.dScales[site]?, o.fw.scales[site]? with
+      | some ds, some c => .val (ds / c)
+      | _, _ => .ub)
+  | .d2Site site =>
+    -- getD2LogLikelihoodForASite (:612-615): `d2Scales_[site] / scales_[site] - pow(dScales_[site] / scales_[site], 2)`
+    (o, match o.d2fw.d2Scales[site]?, o.dfw.dScales[site]?, o.fw.scales[site]? with
+      | some d2s, some ds, some c => .val (d2s / c - (ds / c) * (ds / c))
+      | _, _, _ => .ub)
 
-/-- what a fresh object built from the current tables (with the break points set) answers -/
-def rescSpec (t : Tables α) (bps : List Nat) : Op α → Ans α
+/-- what a fresh object built from the current tables (with the break points set) answers.  The two
+per-site derivative accessors have no variable argument: they refer to the variable `dv` of the last
+first-order computation and `d2v` of the last second-order computation since the last update ("" = none:
+the C++ then answers from arrays that are empty or belong to other parameter values — such queries are
+excluded by `derivNamesOk`). -/
+def rescSpec (t : Tables α) (bps : List Nat) (dv d2v : String) : Op α → Ans α
   | .setTables _ | .setBreaks _ | .logLik => .val (rescForward t.p t.e0 (mkSites t.es bps)).logLik
   | .posterior => .mat (rescPosterior t.p t.e0 t.es bps)
+  | .posteriorInto buf append => .mat ((if append then buf else []) ++ rescPosterior t.p t.e0 t.es bps)
+  | .posteriorSite site => match (rescPosterior t.p t.e0 t.es bps)[site]? with | some r => .mat [r] | none => .ub
+  | .siteLik site =>
+    match (rescPosterior t.p t.e0 t.es bps)[site]?, t.emisAt site with
+    | some r, some e => .val (siteLik t.p r e)
+    | _, _ => .ub
+  | .siteLiks => .mat [siteLiksOf t (rescPosterior t.p t.e0 t.es bps)]
   | .d1 var =>
     let de := t.dE var
     .val (-(rescDForward t.p t.e0 t.es de.1 de.2 bps (rescForward t.p t.e0 (mkSites t.es bps))).dLogLik)
@@ -469,9 +770,29 @@ def rescSpec (t : Tables α) (bps : List Nat) : Op α → Ans α
     let de := t.dE var
     let d2e := t.d2E var
     let fw := rescForward t.p t.e0 (mkSites t.es bps)
-    .val (-(rescD2Forward t.p t.e0 t.es de.1 de.2 d2e.1 d2e.2 bps fw (rescDForward t.p t.e0 t.es de.1 de.2 bps fw)))
+    .val (-(rescD2Forward t.p t.e0 t.es de.1 de.2 d2e.1 d2e.2 bps fw (rescDForward t.p t.e0 t.es de.1 de.2 bps fw)).d2LogLik)
+  | .dSite site =>
+    let fw := rescForward t.p t.e0 (mkSites t.es bps)
+    let de := t.dE dv
+    match (rescDForward t.p t.e0 t.es de.1 de.2 bps fw).dScales[site]?, fw.scales[site]? with
+    | some ds, some c => .val (ds / c)
+    | _, _ => .ub
+  | .d2Site site =>
+    let fw := rescForward t.p t.e0 (mkSites t.es bps)
+    let de := t.dE dv
+    let de2 := t.dE d2v
+    let d2e := t.d2E d2v
+    match (rescD2Forward t.p t.e0 t.es de2.1 de2.2 d2e.1 d2e.2 bps fw (rescDForward t.p t.e0 t.es de2.1 de2.2 bps fw)).d2Scales[site]?,
+          (rescDForward t.p t.e0 t.es de.1 de.2 bps fw).dScales[site]?, fw.scales[site]? with
+    | some d2s, some ds, some c => .val (d2s / c - (ds / c) * (ds / c))
+    | _, _, _ => .ub
 
-/-! ### LogsumHmmLikelihood (forward, backward, posteriors; its derivative recursions are not modelled) -/
+/-! ### LogsumHmmLikelihood -/
+
+def ansOfSite : Option (Option α) → Ans α
+  | some (some x) => .val x
+  | some none => .exc
+  | none => .ub
 
 structure LogObj (α : Type) where
   tab : Tables α
@@ -479,11 +800,19 @@ structure LogObj (α : Type) where
   fw : LogFwd α
   back : List (List α)
   backUpToDate : Bool
+  dVar : String
+  dfw : LogDFwd α
+  d2Var : String
+  d2fw : LogD2Fwd α
+
+def emptyLD : LogDFwd α := { dLog := [], partials := [], dLogLik := zero }
+def emptyLD2 : LogD2Fwd α := { d2Log := [], partials := [], d2LogLik := zero }
 
 def logCompute (t : Tables α) (bps : List Nat) : LogFwd α := logForward t.p t.e0 (mkSites t.es bps)
 
 def LogObj.build (t : Tables α) : LogObj α :=
-  { tab := t, bps := [], fw := logCompute t [], back := [], backUpToDate := false }
+  { tab := t, bps := [], fw := logCompute t [], back := [], backUpToDate := false,
+    dVar := "", dfw := emptyLD, d2Var := "", d2fw := emptyLD2 }
 
 /-- all rows of `getHiddenStatesPosteriorProbabilities`; `none` = `logLikIt` runs past the end -/
 def logPosteriorOf (fw : LogFwd α) (back : List (List α)) (bps : List Nat) : Option (List (List α)) :=
@@ -494,25 +823,125 @@ def logPosteriorOf (fw : LogFwd α) (back : List (List α)) (bps : List Nat) : O
 def logPosterior (t : Tables α) (bps : List Nat) : Option (List (List α)) :=
   logPosteriorOf (logCompute t bps) (logBackward t.p t.es bps) bps
 
-def LogObj.step (o : LogObj α) : Op α → LogObj α × Ans α
+/-- `getHiddenStatesPosteriorProbabilitiesForASite(site)` (:312-336): its own walk over the break
+points (`logPostIdx1`); `none` = `site` is not a position or `logLikIt` is past the end -/
+def logPosteriorSiteOf (fw : LogFwd α) (back : List (List α)) (bps : List Nat) (site : Nat) : Option (List α) :=
+  match fw.logLik[site]?, back[site]? with
+  | some f, some b => logPostRow f b fw.partials[logPostIdx1 site bps]?
+  | _, _ => none
+
+def logPosteriorSite (t : Tables α) (bps : List Nat) (site : Nat) : Option (List α) :=
+  logPosteriorSiteOf (logCompute t bps) (logBackward t.p t.es bps) bps site
+
+/-- `if (!backLogLikelihoodUpToDate_) computeBackward_();` -/
+def LogObj.refreshBack (o : LogObj α) : LogObj α :=
+  if o.backUpToDate then o
+  else { o with back := logBackward o.tab.p o.tab.es o.bps, backUpToDate := true }
+
+/-- `getFirstOrderDerivative(var)` (HmmLikelihood.cpp:33) with `computeDForward_`: the name is stored before
+the computation; `none` = the computation throws (the arrays are then partly rewritten in the C++: such an
+object is not followed further) -/
+def LogObj.firstOrder [HasIsInf α] (o : LogObj α) (var : String) : LogObj α × Option α :=
+  if var != o.dVar then
+    let de := o.tab.dE var
+    match logDForward o.tab.p o.tab.e0 o.tab.es de.1 de.2 o.bps o.fw with
+    | some d => ({ o with dVar := var, dfw := d }, some (-d.dLogLik))
+    | none => ({ o with dVar := var }, none)
+  else (o, some (-o.dfw.dLogLik))
+
+def LogObj.step [HasIsInf α] (o : LogObj α) : Op α → LogObj α × Ans α
   | .setTables t =>
     -- fireParameterChanged (LogsumHmmLikelihood.cpp:71)
     let fw := logCompute t o.bps
-    ({ o with tab := t, backUpToDate := false, fw := fw }, .val fw.ll)
+    ({ o with tab := t, backUpToDate := false, fw := fw, dVar := "", d2Var := "" }, .val fw.ll)
   | .setBreaks bps =>
+    -- setBreakPoints (LogsumHmmLikelihood.h:176)
+    if !(breaksOk o.tab.T bps) then (o, .exc) else
     let fw := logCompute o.tab bps
-    ({ o with bps := bps, fw := fw, backUpToDate := false }, .val fw.ll)
+    ({ o with bps := bps, fw := fw, backUpToDate := false, dVar := "", d2Var := "" }, .val fw.ll)
   | .logLik => (o, .val o.fw.ll)
   | .posterior =>
     let o1 := if o.backUpToDate then o
       else { o with back := logBackward o.tab.p o.tab.es o.bps, backUpToDate := true }
-    (o1, match logPosteriorOf o1.fw o1.back o1.bps with | some m => .mat m | none => .exc)
-  | .d1 _ | .d2 _ => (o, .exc)   -- not modelled
+    (o1, match logPosteriorOf o1.fw o1.back o1.bps with | some m => .mat m | none => .ub)
+  | .posteriorInto buf append =>
+    -- LogsumHmmLikelihood.cpp:338-374, same treatment of `probs` as the rescaled class
+    let o1 := o.refreshBack
+    (o1, match logPosteriorOf o1.fw o1.back o1.bps with
+      | some m => .mat ((if append then buf else []) ++ m) | none => .ub)
+  | .posteriorSite site =>
+    let o1 := o.refreshBack
+    (o1, match logPosteriorSiteOf o1.fw o1.back o1.bps site with | some r => .mat [r] | none => .ub)
+  | .siteLik site =>
+    -- getLikelihoodForASite (:279-289)
+    let o1 := o.refreshBack
+    (o1, match logPosteriorSiteOf o1.fw o1.back o1.bps site, o.tab.emisAt site with
+      | some r, some e => .val (siteLik o.tab.p r e)
+      | _, _ => .ub)
+  | .siteLiks =>
+    -- getLikelihoodForEachSite (:291-307)
+    let o1 := o.refreshBack
+    (o1, match logPosteriorOf o1.fw o1.back o1.bps with
+      | some m => .mat [siteLiksOf o.tab m] | none => .ub)
+  | .d1 var =>
+    let r := o.firstOrder var
+    (r.1, match r.2 with | some x => .val x | none => .exc)
+  | .d2 var =>
+    -- getSecondOrderDerivative (HmmLikelihood.cpp:45); computeD2Forward_ first calls getFirstOrderDerivative(d2Variable_)
+    if var != o.d2Var then
+      let r := ({ o with d2Var := var }).firstOrder var
+      match r.2 with
+      | none => (r.1, .exc)
+      | some _ =>
+        let o1 := r.1
+        let de := o.tab.dE var
+        let d2e := o.tab.d2E var
+        match logD2Forward o.tab.p o.tab.e0 o.tab.es de.1 de.2 d2e.1 d2e.2 o.bps o1.fw o1.dfw with
+        | some d2 => ({ o1 with d2fw := d2 }, .val (-d2.d2LogLik))
+        | none => (o1, .exc)
+    else (o, .val (-o.d2fw.d2LogLik))
+  | .dSite site => (o, ansOfSite (logDSiteOf o.fw o.dfw.dLog o.bps site))
+  | .d2Site site => (o, ansOfSite (logD2SiteOf o.fw o.dfw.dLog o.d2fw.d2Log o.bps site))
 
-def logSpec (t : Tables α) (bps : List Nat) : Op α → Ans α
+def logSpec [HasIsInf α] (t : Tables α) (bps : List Nat) (dv d2v : String) : Op α → Ans α
   | .setTables _ | .setBreaks _ | .logLik => .val (logCompute t bps).ll
-  | .posterior => match logPosterior t bps with | some m => .mat m | none => .exc
-  | .d1 _ | .d2 _ => .exc
+  | .posterior => match logPosterior t bps with | some m => .mat m | none => .ub
+  | .posteriorInto buf append =>
+    match logPosterior t bps with | some m => .mat ((if append then buf else []) ++ m) | none => .ub
+  | .posteriorSite site => match logPosteriorSite t bps site with | some r => .mat [r] | none => .ub
+  | .siteLik site =>
+    match logPosteriorSite t bps site, t.emisAt site with
+    | some r, some e => .val (siteLik t.p r e)
+    | _, _ => .ub
+  | .siteLiks => match logPosterior t bps with | some m => .mat [siteLiksOf t m] | none => .ub
+  | .d1 var =>
+    let de := t.dE var
+    match logDForward t.p t.e0 t.es de.1 de.2 bps (logCompute t bps) with
+    | some d => .val (-d.dLogLik) | none => .exc
+  | .d2 var =>
+    let de := t.dE var
+    let d2e := t.d2E var
+    match logDForward t.p t.e0 t.es de.1 de.2 bps (logCompute t bps) with
+    | none => .exc
+    | some d =>
+      match logD2Forward t.p t.e0 t.es de.1 de.2 d2e.1 d2e.2 bps (logCompute t bps) d with
+      | some d2 => .val (-d2.d2LogLik) | none => .exc
+  | .dSite site =>
+    let de := t.dE dv
+    match logDForward t.p t.e0 t.es de.1 de.2 bps (logCompute t bps) with
+    | none => .exc
+    | some d => ansOfSite (logDSiteOf (logCompute t bps) d.dLog bps site)
+  | .d2Site site =>
+    -- first-order rows of `dv`, second-order rows of `d2v` (the same variable right after a second-order query)
+    let de1 := t.dE dv
+    let de := t.dE d2v
+    let d2e := t.d2E d2v
+    match logDForward t.p t.e0 t.es de1.1 de1.2 bps (logCompute t bps), logDForward t.p t.e0 t.es de.1 de.2 bps (logCompute t bps) with
+    | some d1, some d =>
+      match logD2Forward t.p t.e0 t.es de.1 de.2 d2e.1 d2e.2 bps (logCompute t bps) d with
+      | none => .exc
+      | some d2 => ansOfSite (logD2SiteOf (logCompute t bps) d1.dLog d2.d2Log bps site)
+    | _, _ => .exc
 
 /-! ### LowMemoryRescaledHmmLikelihood (no posteriors, no derivatives) -/
 
@@ -534,23 +963,32 @@ def LowObj.build (t : Tables α) (maxSize : Nat) : Option (LowObj α) :=
 
 def LowObj.step (o : LowObj α) : Op α → LowObj α × Ans α
   | .setTables t => let ll := lowCompute t o.maxSize o.bps; ({ o with tab := t, logLik := ll }, .val ll)
-  | .setBreaks bps => let ll := lowCompute o.tab o.maxSize bps; ({ o with bps := bps, logLik := ll }, .val ll)
+  | .setBreaks bps =>
+    if !(breaksOk o.tab.T bps) then (o, .exc) else
+    let ll := lowCompute o.tab o.maxSize bps; ({ o with bps := bps, logLik := ll }, .val ll)
   | .logLik => (o, .val o.logLik)
-  | .posterior => (o, .exc)
+  | .posterior | .posteriorInto _ _ | .posteriorSite _ | .siteLik _ | .siteLiks => (o, .exc)   -- NotImplementedException
   | .d1 var =>
     -- getFirstOrderDerivative stores the name, then computeDLikelihood_ throws NotImplementedException:
     -- a second call with the same name answers -dLogLik_ = -0
     if var != o.dVar then ({ o with dVar := var }, .exc) else (o, .val (-zero))
   | .d2 var =>
     if var != o.d2Var then ({ o with d2Var := var }, .exc) else (o, .val (-zero))
+  | .dSite _ | .d2Site _ => (o, .exc)   -- NotImplementedException
+
+/-- what a fresh object answers -/
+def lowSpec (t : Tables α) (maxSize : Nat) (bps : List Nat) : Op α → Ans α
+  | .posterior | .posteriorInto _ _ | .posteriorSite _ | .siteLik _ | .siteLiks | .d1 _ | .d2 _ | .dSite _ | .d2Site _ => .exc
+  | _ => .val (lowCompute t maxSize bps)
 
 /-! ## AutoCorrelationTransitionMatrix (AutoCorrelationTransitionMatrix.cpp), as repaired
 (the equilibrium vector is the stationary distribution, proportional to 1/(1-λ_i)) -/
 
-/-- `Pij(i, j)` (AutoCorrelationTransitionMatrix.h) and the entries written by `getPij()`, from
-`li = vAutocorrel_[i]` -/
+/-- `Pij(i, j)` (AutoCorrelationTransitionMatrix.h:48-54) and the entries written by `getPij()` (which calls
+it), from `li = vAutocorrel_[i]`; as repaired: a single state stays in place with probability 1 -/
 def autoEntry (n : Nat) (li : α) (i j : Nat) : α :=
-  if i == j then li else (one - li) / ofInt ((n : Int) - 1)
+  if n == 1 then one
+  else if i == j then li else (one - li) / ofInt ((n : Int) - 1)
 
 /-- the loop of `fireParameterChanged`: `eqFreq_[i] = 1/(1-λ_i); sum += eqFreq_[i]`, then `eqFreq_[i] /= sum` -/
 def autoEq (lam : List α) : List α :=
